@@ -10,6 +10,8 @@ Decided statically (E1 layout types + structural pairing rules):
   operands       every binary method uses the values of both operands on the non-scalar path
   result-domain  project/transpose answer in the requested order; binary ops answer over the merged domain
   aggregation-mode  project reduces with the reducer the caller asked for (read once per mode, tests on the mode decided)
+  scalar-cells        scalar * factor is the product clipped by nan_to_num in every cell (cell-level interpreter)
+  log-form            Factor.log is log(values + 1e-100): a shift, not a floor
   cv-difference       CliqueVector.__sub__ is the sum with the operand negated by scalar multiplication (not Factor's log-domain `-`)
   results-writable    outside expand no read-only broadcast view reaches a returned factor (in-place forms work on derived factors)
   operators-allocate  the non in-place operators / reductions return a table allocated by the call (never an operand or a view of it)
@@ -21,6 +23,7 @@ Decided statically (E1 layout types + structural pairing rules):
 Not decided: value-level behaviour of the numpy primitives themselves (trusted).
 """
 import ast
+import re
 
 from ..engines.layout import LayoutTyper, V, show
 from ..srcmodel import AnalysisError, U, calls_in, header
@@ -148,6 +151,8 @@ def run(ctx):
     check_operators_allocate(ctx)
     check_results_writable(ctx)
     check_cv_difference(ctx)
+    check_scalar_cells(ctx)
+    check_log_form(ctx)
     check_axes_primitive(ctx)
     check_clique_vector(ctx)
     from .C15 import none_tests
@@ -208,6 +213,63 @@ def check_operators_allocate(ctx):
                                          'on some path (a view of) storage of the %s: an in-place update of the result then rewrites the operand' % v),
                construct='ownership of the result of Factor.' + name)
     ctx.floor('operators checked for ownership of their result', n, 8)
+
+
+def check_scalar_cells(ctx):
+    """scalar * factor, cell by cell on the extended reals (engines/cellsem.py): the product clipped by numpy.nan_to_num - finite values scaled,
+    +-inf turned into the largest / smallest double, NaN (0 * inf) into 0.  The library relies on it (`-1 * theta` with structural zeros,
+    step * gradient).  A test on the WHOLE table (`np.isfinite(values).all()`) is followed both ways from a cell that does not decide it."""
+    from ..engines import cellsem as CS
+    from ..normalise import normalised
+    fi0 = ctx.repo.func(FACTOR, 'Factor.__mul__')
+    methods = {q.split('.', 1)[1]: normalised(ctx.repo, f) for q, f in fi0.module.funcs.items() if q.startswith('Factor.') and q.count('.') == 1}
+    fi = methods['__mul__']
+    ctx.analysed(fi)
+    n = 0
+    for k in (2, -1, 0):
+        for label, cell in (('finite', CS.fin('x')), ('-inf', CS.NINF), ('+inf', CS.PINF), ('NaN', CS.NAN)):
+            want = CS.nan_to_num(CS.scale(cell, k))
+            ip = CS.Interp(methods)
+            try:
+                r = ip.call_method('__mul__', CS.Fac(cell), [CS.Num(CS.fin(None, k))])
+            except AnalysisError as e:
+                raise AnalysisError('Factor.__mul__ [%s * %s]: %s' % (k, label, e))
+            if not isinstance(r, CS.Fac):
+                raise AnalysisError('Factor.__mul__ [%s * %s]: does not return a factor' % (k, label))
+            n += 1
+            ctx.ob('scalar-cells', fi, fi.node, CS.same(r.cell, want), '[%s * %s cell] must be %s (the product, clipped by nan_to_num); the code computes %s'
+                   % (k, label, CS.show(want), CS.show(r.cell)), construct='%s * (%s cell)' % (k, label))
+    ctx.floor('scalar-times-cell cases', n, 12)
+
+
+def check_log_form(ctx):
+    """Factor.log is log(values + FLOOR) entry by entry, FLOOR the tiny constant 1e-100 (possibly a parameter with that default): a SHIFT.  A floor by
+    `np.maximum(values, FLOOR)` / clip / where agrees at 0 and for ordinary values but not for tiny positive ones, and hides negative entries."""
+    fi = ctx.repo.func(FACTOR, 'Factor.log')
+    ctx.analysed(fi)
+    defaults = fi.defaults()
+    logs = [c for c in calls_in(fi.node) if U(c.func) in ('np.log', 'numpy.log') and c.args]
+    if not logs:
+        raise AnalysisError('Factor.log: no np.log call')
+    n = 0
+    for c in logs:
+        a = c.args[0]
+        t = U(a).replace(' ', '')
+        if t == 'self.values' and any(k.arg == 'out' for k in c.keywords):
+            continue          # the in-place form writes the plain logarithm into the given storage (as it always did)
+        m = re.fullmatch(r'self\.values\+(.+)|(.+)\+self\.values', t)
+        floor = None
+        if m:
+            floor = m.group(1) or m.group(2)
+        shift_ok = floor is not None and (floor in ('1e-100',) or (floor in defaults and U(defaults[floor]) == '1e-100'))
+        floored = re.fullmatch(r'np\.maximum\(self\.values,.+\)|np\.maximum\(.+,self\.values\)|np\.clip\(self\.values,.+\)|self\.values\.clip\(.+\)|np\.where\(self\.values.+\)', t)
+        if not m and not floored:
+            raise AnalysisError('Factor.log: operand `%s` of the logarithm is in no recognised form' % U(a)[:60])
+        n += 1
+        ctx.ob('log-form', fi, c, bool(shift_ok), 'log(values + 1e-100), entry by entry; the source takes the log of `%s`%s' % (U(a)[:60], '' if shift_ok else
+               (' - a FLOOR instead of a shift: tiny positive entries (underflowing products) are replaced, negative ones hidden' if floored else
+                ' - another floor than the 1e-100 the rest of the library assumes')), construct='operand of the logarithm')
+    ctx.floor('logarithms in Factor.log', n, 1)
 
 
 def check_cv_difference(ctx):
